@@ -64,6 +64,18 @@ CLAIMS["C12"] = dict(
     note="Assumes C13's child-field derivation; planner behaviour on the filled statement is not analysed.",
     technique="walker visit-order/completeness matrix + dominance (dataflow) of the count check + callback shape rules")
 
+CLAIMS["C18"] = dict(
+    level="other", engine="pyflow",
+    text="Protocol lints, exhaustive over all classes: copy() is copy.deepcopy; every customised copier transfers every "
+         "attribute an instance can carry (set by the class or attached from outside on provably fresh instances) and "
+         "mutable ones by deepcopy - absence of sharing is structural, which discharges the all-mutations quantifier; no "
+         "constructor stores a mutable default; every __eq__ returns a bool on all CFG paths, its conditions are closed under "
+         "swapping self/other, vars(self)-driven comparison skips every late attribute; ASTNode.__eq__ conjoins tree and "
+         "printed-text equality; __hash__ returns an int built from fields __eq__ compares.",
+    note="Relies on copy.deepcopy semantics for classes without copy hooks; equality of concrete trees/plans is not "
+         "evaluated.",
+    technique="copy/eq/hash protocol lints: attribute-set completeness, all-paths-return dataflow, swap-invariance of conditions")
+
 NA_PENDING = "check under construction in this session; not claimed until its rule module is committed"
 
 
